@@ -426,7 +426,7 @@ def check_case(ops, impl, skip_lines=()):
             if got == "hang":
                 break
             continue
-        if f[0] in ("closeidle", "restart"):
+        if f[0] in ("closeidle", "restart", "close"):
             o.close()
             continue
         if i in skip_lines:
